@@ -65,6 +65,11 @@ pub enum Spec {
     text: String,
     name: String,
     map: MapSpec,
+    /// Some((original_source, remove_original_source)): built with the full `SourceMapSourceOptions`
+    /// (inner_source_map: None) instead of `WithoutOriginalOptions`; without an inner map the two fields
+    /// take part in `==` / `Hash` / `Debug` only
+    #[serde(default)]
+    full: Option<(Option<String>, bool)>,
   },
   /// `SourceMapSource` with inner map
   SmsInner {
